@@ -19,7 +19,7 @@ import (
 
 func TestMain(m *testing.M) {
 	kit.Register("faults", faultsOracle)
-	kit.Describe("case = (configuration, document, API in {Convert, Parse+Render}, writer kind in {plain, caller bufio of 16/4096/65536 bytes}, fault mode in {fail from offset k on, fail always, fail once then succeed}); for outputs <= 600 bytes every offset k in 0..len+1 is enumerated, for large outputs (5-40 KiB) every offset within 3 bytes of a multiple of 4096 plus an arithmetic grid drawn by the generator; oracle: writer reported failure => error non-nil and errors.Is(err, injected), bytes accepted before the first failure are a prefix of the fault-free output, no panic; no failure => nil error and identical bytes; evaluations = fault runs; non-trivial = a case with at least one offset strictly inside the output; distinct by hash of the case",
+	kit.Describe("case = (configuration, document, API in {Convert, Parse+Render}, writer kind in {plain io.Writer, io.Writer that also has WriteByte/WriteString/WriteRune, caller bufio of 16/4096/65536 bytes}, fault mode in {fail from offset k on, fail always, fail once then succeed}); for outputs <= 600 bytes every offset k in 0..len+1 is enumerated, for large outputs (5-40 KiB) every offset within 3 bytes of a multiple of 4096 plus an arithmetic grid drawn by the generator; oracle: writer reported failure => error non-nil and errors.Is(err, injected), bytes accepted before the first failure are a prefix of the fault-free output, no panic; no failure => nil error and identical bytes; evaluations = fault runs; non-trivial = a case with at least one offset strictly inside the output; distinct by hash of the case",
 		"the injected error is a sentinel compared with errors.Is")
 	kit.Main(m, "C14")
 }
@@ -72,9 +72,23 @@ func (w *faultWriter) Write(p []byte) (int, error) {
 	return len(p), nil
 }
 
+// richWriter is a destination that, like bytes.Buffer or strings.Builder,
+// also offers WriteByte / WriteString / WriteRune (but is not a util.BufWriter).
+type richWriter struct{ *faultWriter }
+
+func (w richWriter) WriteByte(c byte) error {
+	_, err := w.faultWriter.Write([]byte{c})
+	return err
+}
+func (w richWriter) WriteString(s string) (int, error) { return w.faultWriter.Write([]byte(s)) }
+func (w richWriter) WriteRune(r rune) (int, error)     { return w.faultWriter.Write([]byte(string(r))) }
+
 func runOnce(cfg gen.Config, src []byte, api, wrap int, fw *faultWriter) (err error) {
 	md := cfg.MD()
 	var w io.Writer = fw
+	if wrap == -1 {
+		w = richWriter{fw}
+	}
 	var bw *bufio.Writer
 	if wrap > 0 {
 		bw = bufio.NewWriterSize(fw, wrap)
@@ -205,7 +219,7 @@ func TestFaults(t *testing.T) {
 		src, class := gen.Doc(t, gen.Any, 24, "d")
 		c := kit.NewCase("faults", cfg.String()).B("src", src)
 		c.I("api", int64(rapid.IntRange(0, 1).Draw(t, "api")))
-		c.I("wrap", int64(rapid.SampledFrom([]int{0, 0, 16, 4096, 65536}).Draw(t, "wrap")))
+		c.I("wrap", int64(rapid.SampledFrom([]int{0, 0, -1, 16, 4096, 65536}).Draw(t, "wrap")))
 		c.I("mode", int64(rapid.SampledFrom([]int{0, 0, 0, 0, 1, 2}).Draw(t, "mode")))
 		large := rapid.IntRange(0, 5).Draw(t, "large") == 0
 		if large {
